@@ -28,6 +28,8 @@ var sliceMergeRule = map[string]string{
 func C09(e *Env) {
 	r := e.R
 	e.analysedBase()
+	nilErrorUse(e, "R10.4")
+	e.R.Rule("R10.4", "error tests are not inverted (shared with C10): with the test of filepath.Glob's error inverted, findFiles returns no file for every valid pattern and nothing is read or merged", 1)
 	yamlKeysRule(e, "R11.12")
 	e.R.Rule("R11.12", "key table (shared with C11): what a file contributes to the merge is what the decoder recognises", 25)
 	r.Rule("R09.1", "the values returned by Merge, mergeMeta and mergeService define every field of their struct; field K is combinator(first.K, second.K) with the combinator its documented class requires (pointer: later non-nil wins; map: key-wise union, later wins; services: per-key mergeService; arguments: later non-empty replaces; calls/tags/decorators: earlier ++ later)", 22)
